@@ -14,6 +14,11 @@ CLI_NOTE = ("CLI correspondence: seeded command histories on real temporary proj
 POOL_NOTE = ("The theorems are about the labelled transition system GwfModel/Pool.lean (labels = the events observable on the real Scheduler). "
              "That asyncio realises only enabled transitions is VALIDATED by trace acceptance on the explored schedules (virtual clock, fake subprocess, instrumented semaphore/state table; fine-grained settling so cancels hit every await point), not proved. ")
 CHECKS = {
+ "C20": dict(
+   text="Theorems for ALL key/value strings and configurations: get after set returns the coerced value, also after dump;load (set_get); other keys are never disturbed by set or unset; unset makes the key read as its default; unset of an absent or default-only key is the identity (unset_absent_noop); coercion is total and is exactly: Python-int syntax → int, true/yes → True, false/no → False, else the text itself (tryConv_cases, with the converter order regenerated from CONVERTERS); get_namespace returns exactly the items whose key is ns + '.' + k' — no prefix-sharing key leaks (namespace_exact, via dropPrefix?_iff); precedence flag > config > default (precedence).",
+   note="Python int() is modelled on ASCII (ws, sign, digits with single underscores); Unicode digits/whitespace are not generated. JSON round trip of int/bool/str dicts is assumed (dump;load = identity in the model) and exercised through the real file in the correspondence. Backend/verbosity/colour precedence and the reach of backend.slurm.* / backend.local.* are observed through the real CLI (which fake scheduler is called, debug/info lines, click's tty switch, sbatch scripts, sacct calls, the connect call).",
+   technique="Lean 4 proof (association-list algebra, string-prefix lemma, kernel-evaluated examples) + differential correspondence with the real FileConfig and CLI",
+   design="§6-C20"),
  "C06": dict(
    text="Theorems for ALL acyclic workflows: with no live/failed/cancelled job the submitted set is exactly the closure of the stale targets under 'depends on' (submits_is_stale_closure, rerun_exact: submitted iff transitively downstream of a stale target); convergence: if every target with outputs is file-wise up to date and jobs are all completed/unknown, every such target is reported completed and the next run submits exactly the targets without outputs (converges, by induction on rank); the file-level premise is proved for any execution order in which each job stamps its outputs after all its prerequisites (TouchLemmas.stampSeq_uptodate, arbitrary length).",
    note=CLI_NOTE + "The glue between the abstract premises (no two producers, inputs produced earlier or existing) and the graph model is by C03/C04 theorems; it is not assembled into one end-to-end Lean statement (partial). Real kernel mtimes are replaced by os.utime stamps. Local worker pool backend is covered by C07/C11-C14 checks, not by this history engine.",
